@@ -1,0 +1,67 @@
+//! Verification hooks (compiled only with `--cfg amiquip_verif`).
+//!
+//! Re-exports of crate-private components for an external test harness. Nothing
+//! here is part of the supported API and nothing changes behavior.
+
+pub use crate::frame_buffer::FrameBuffer;
+pub use crate::io_loop::verif::{
+    set_io_observer, Collected, CollectorProbe, IoEvent, SlotsProbe,
+};
+
+use crate::{Auth, ConnectionOptions, Result};
+use amq_protocol::protocol::connection::{Tune, TuneOk};
+use std::time::Duration;
+
+/// Run the real tune negotiation for the given client options and server `Tune`.
+pub fn make_tune_ok(
+    client_channel_max: u16,
+    client_frame_max: u32,
+    client_heartbeat: u16,
+    tune: Tune,
+) -> Result<TuneOk> {
+    ConnectionOptions::<Auth>::default()
+        .channel_max(client_channel_max)
+        .frame_max(client_frame_max)
+        .heartbeat(client_heartbeat)
+        .make_tune_ok(tune)
+}
+
+/// Connection parameters decoded from an AMQP URL.
+#[derive(Debug, Clone, PartialEq)]
+pub struct DecodedUrl {
+    pub secure: bool,
+    pub host: Option<String>,
+    pub port: Option<u16>,
+    pub auth: Auth,
+    pub virtual_host: String,
+    pub locale: String,
+    pub channel_max: u16,
+    pub frame_max: u32,
+    pub heartbeat: u16,
+    pub connection_timeout: Option<Duration>,
+}
+
+/// Decode a URL exactly as `Connection::insecure_open` would before connecting.
+pub fn decode_url(url: &str) -> Result<DecodedUrl> {
+    crate::connection::verif_decode_url(url)
+}
+
+pub(crate) fn decoded(
+    secure: bool,
+    host: Option<String>,
+    port: Option<u16>,
+    options: ConnectionOptions<Auth>,
+) -> DecodedUrl {
+    DecodedUrl {
+        secure,
+        host,
+        port,
+        auth: options.auth,
+        virtual_host: options.virtual_host,
+        locale: options.locale,
+        channel_max: options.channel_max,
+        frame_max: options.frame_max,
+        heartbeat: options.heartbeat,
+        connection_timeout: options.connection_timeout,
+    }
+}
